@@ -670,14 +670,15 @@ def adjudicate(chk: Check, w: World, mism: List[Dict[str, Any]], what: str) -> N
         return
     if chk.silent:
         mism = mism[:400]          # probes: a sample is enough to decide killed / survived
-    recs, kept = [], []
+    recs, kept, errs = [], [], []
     for m in mism:
         obs = observe(w, m["segs"], m["mode"], m["via"], m["ity"], m["enc"], m["flavour"])
         try:
             recs.append(trace_record(w, len(recs) + 1, m["segs"], m["mode"], m["via"], m["ity"], m["enc"], obs))
             kept.append(m)
         except Calibration as e:
-            calibration_failed(chk, w, e)
+            errs.append(e)
+    calibration_failed(chk, w, errs)
     mism = kept
     if not recs:
         return
@@ -694,32 +695,41 @@ def adjudicate(chk: Check, w: World, mism: List[Dict[str, Any]], what: str) -> N
         chk.add("mismatches_adjudicated_by_tlc")
         if kind == "DEV":
             chk.add("dev:" + info)
+        else:
+            chk.add("rejected:" + info)
         chk.violation(case, detail, key=info if kind == "DEV" else None)
 
 
-def calibration_failed(chk: Check, w: World, e: Calibration, seen: Optional[set] = None) -> None:
+def calibration_failed(chk: Check, w: World, errs: Iterable[Calibration]) -> None:
     """The blocks could not be had.  If the real code raised on the calibration document, that call is the
-    failing case (adjudicated by TLC like any other call); otherwise the old calibration violation."""
-    if seen is not None:
+    failing case (adjudicated by TLC like any other call, one batch); otherwise the old calibration violation."""
+    seen, cases = set(), []
+    for e in errs:
         if str(e) in seen:
-            return
+            continue
         seen.add(str(e))
-    case = e.case
-    if case is None:
-        chk.violation({"kind": "calibration"}, str(e))
+        if e.case is None:
+            chk.violation({"kind": "calibration"}, str(e))
+        elif len(cases) < (3 if chk.silent else 40):
+            cases.append((e, e.case))
+    recs = []
+    for e, case in cases:
+        obs = observe(w, case["segs"], case["mode"], case["via"], case["ity"], case["enc"], case["flavour"])
+        if obs["res"] == "ok":
+            raise MachineryError(f"calibration call raised once and not again: {e}")
+        recs.append((trace_record(w, len(recs) + 1, case["segs"], case["mode"], case["via"], case["ity"], case["enc"], obs), obs))
+    if not recs:
         return
-    obs = observe(w, case["segs"], case["mode"], case["via"], case["ity"], case["enc"], case["flavour"])
-    if obs["res"] == "ok":
-        raise MachineryError(f"calibration call raised once and not again: {e}")
-    rec = trace_record(w, 1, case["segs"], case["mode"], case["via"], case["ity"], case["enc"], obs)
-    verdicts, _ = tlc_validate([rec], "calibration call")
-    kind, info = verdicts[1]
-    if kind == "ACCEPT":
-        raise MachineryError(f"TLC accepts a call that raised: {e}")
-    chk.add("mismatches_adjudicated_by_tlc")
-    chk.violation(case, {"verdict": kind, "info": info, "input": "".join(x["s"] for x in case["segs"]),
-                         "observed": rec["res"], "observed_detail": obs.get("detail"), "observed_type": rec["oty"]},
-                  key=info if kind == "DEV" else None)
+    verdicts, _ = tlc_validate([r for r, _ in recs], "calibration calls")
+    for i, (e, case) in enumerate(cases):
+        kind, info = verdicts[i + 1]
+        rec, obs = recs[i]
+        if kind == "ACCEPT":
+            raise MachineryError(f"TLC accepts a call that raised: {e}")
+        chk.add("mismatches_adjudicated_by_tlc")
+        chk.violation(case, {"verdict": kind, "info": info, "input": "".join(x["s"] for x in case["segs"]),
+                             "observed": rec["res"], "observed_detail": obs.get("detail"), "observed_type": rec["oty"]},
+                      key=info if kind == "DEV" else None)
 
 
 _EXPORTS: Dict[int, Tuple[List[Dict[str, Any]], int, int]] = {}
@@ -794,7 +804,7 @@ def model_check_and_replay(chk: Check, maxlen: int, rounds: int, procs: int) -> 
         for row in rows:
             w.blocks(tuple(c[1] for c in row["doc"] if c[0] == "M"))
     except Calibration as e:
-        calibration_failed(chk, w, e)
+        calibration_failed(chk, w, [e])
         return
     size = max(50, len(rows) // (procs * 6) + 1)
     jobs = [(rows[i:i + size], i, chk.seed, rounds) for i in range(0, len(rows), size)]
@@ -812,13 +822,13 @@ def model_check_and_replay(chk: Check, maxlen: int, rounds: int, procs: int) -> 
         mism += res["mismatch"]
         for smp in res["samples"]:
             chk.sample({"replayed": smp}, limit=4)
-    seen: set = set()
+    errs = []
     for res in results:
         for msg, case in res["calib"]:
-            if len(seen) < (3 if chk.silent else 30):
-                cal = Calibration(msg)
-                cal.case = case
-                calibration_failed(chk, w, cal, seen)
+            cal = Calibration(msg)
+            cal.case = case
+            errs.append(cal)
+    calibration_failed(chk, w, errs)
     chk.add("calls_replayed", sum(x["n"] for x in results))
     chk.add("concretisations_with_payload_classes", sum(x["pay_calls"] for x in results))
     adjudicate(chk, w, mism, "replay mismatches")
@@ -882,7 +892,7 @@ def validate_random(chk: Check, n: int) -> None:
             recs.append(rec)
             cases.append(case)
     except Calibration as e:
-        calibration_failed(chk, w, e)
+        calibration_failed(chk, w, [e])
         return
     verdicts, states = tlc_validate(recs, "random traces")
     chk.add("trace_states", states)
@@ -900,6 +910,8 @@ def validate_random(chk: Check, n: int) -> None:
                   "observed": rec["out"] if rec["res"] == "ok" else rec["res"], "observed_type": rec["oty"]}
         if kind == "DEV":
             chk.add("dev:" + info)
+        else:
+            chk.add("rejected:" + info)
         chk.violation(case, detail, key=info if kind == "DEV" else None)
     chk.add("traces_validated_against_impl", len(recs))
     chk.add("traces_document_mode_with_carried_texts", sum(1 for r in recs if r["pay"] and r["res"] == "ok" and r["mode"] == "document"
